@@ -27,4 +27,10 @@ CHECKS = {
         'note': 'Assumed (listed in evidence): kernel enforcement of rlimits, SIGKILL delivery and reaping, communicate(timeout) returning within the limit, floats as reals, round(x,2) within 0.005, execute() abstracted in do_golden_runs. Total-running-time bound follows from these assumptions per call; it is a lemma over call counts, not measured.',
         'technique': 'contract-based deductive verification: path-wise VCs from the real AST with environment contracts for subprocess/resource, z3',
     },
+    'C04': {
+        'category': 'proof',
+        'text': 'Exception-freedom is proved with lazy symbolic s-expression nodes (any shape, any arity, any leaf text) for the five is_relevant() functions, for collect_information() (loops over commands / sub-terms / children verified for an arbitrary element with havocked symbol tables) and for get_sort() with an adversarial _get_sort_aux; containment of mutator failures in ddmin task generation is checked with adversarial mutators; __main__.main() maps each ending to the documented return value and one diagnostic line; bin/ddsmt exits with that value. Parts that unroll a comprehension over children are labelled bounded (arity <= 6) in the evidence and not counted as proved.',
+        'note': 'Not yet under contract (work in progress): parse_smtlib, writers, auto_detect_theories wiring, Producer/Consumer containment. Assumed: Node.__eq__/__hash__ contract (C12), leaf texts non-empty, nodes.contains contract, logging calls dropped (arguments not evaluated).',
+        'technique': 'contract-based deductive verification: path-wise VCs from the real AST over lazy symbolic trees (z3 datatype+sequence theory), adversarial callee models',
+    },
 }
